@@ -7,7 +7,7 @@ PROP = Property(
     coq_targets=["Extract/Extract_Locks.vo"],
     engines=[Engine(name="tstress", c_srcs=["harness/thread_stress_drv.c"], variant="tsan",
                     ml_srcs=["ocaml/gen/LocksModel.ml", "ocaml/tstress_drv.ml"],
-                    gen=stressgen.gen, n_quick=18, n_thorough=400, sep=None, timeout=3000, search_factor=1)],
+                    gen=stressgen.gen, n_quick=18, n_thorough=400, sep=None, timeout=3000, search_factor=1, per_case=True)],
     trusted_base=["Coq 8.16.1 kernel + coqc (vm_compute for the finite fact table)",
                   "gen/lockfacts.py: syntactic lock-bracket analysis of the clang AST of every public entry point (regenerated each run)",
                   "whitelists in coq/Core/LockDiscipline.v (exclusive-by-contract functions, immutable-after-init fields, stateless callees)",
